@@ -9,6 +9,7 @@ package main
 //	((RS ...), [Probe kind target amount])         kind: 0 SetHP 1 ModifyHPByRatio 2 ModifyStance
 //	                                               3 ModifyEnergy 4 ModifyEnergyFixed 5 SetGauge
 //	                                               6 ModifyGaugeNormalized 7 ModifyGaugeAV
+//	                                               8 AdjacentTo 9 IsValid/IsAlive/IsCharacter/IsEnemy (queries)
 //	ApiOut (Obs ...) units [status]                status: 0 returned nil, 1 returned an error,
 //	                                               2 panicked; units = targets created by the run
 
@@ -42,7 +43,7 @@ func apiGen(r *term.Rng, idx int) term.T {
 			target = r.Range(1, units)
 		}
 		amount := term.Pick(r, []int{0, 1, -1, 50, -10000, 10000})
-		probes = append(probes, term.C("Probe", term.I(int64(r.Intn(8))), term.I(int64(target)), term.I(int64(amount))))
+		probes = append(probes, term.C("Probe", term.I(int64(r.Intn(10))), term.I(int64(target)), term.I(int64(amount))))
 	}
 	return term.Tup(spec, term.L(probes...))
 }
@@ -58,6 +59,17 @@ func apiCall(sim *simulation.Simulation, kind int, target key.TargetID, amount f
 	d := info.ModifyAttribute{Key: "verif-probe", Target: target, Source: 1, Amount: amount}
 	var err error
 	switch kind {
+	case 8:
+		// queries have no error result: they must simply answer, whatever the target (content asks about
+		// units that an earlier insert of the same queue drain has already removed)
+		_ = sim.AdjacentTo(target)
+		return 0, ""
+	case 9:
+		_ = sim.IsValid(target)
+		_ = sim.IsAlive(target)
+		_ = sim.IsCharacter(target)
+		_ = sim.IsEnemy(target)
+		return 0, ""
 	case 0:
 		err = sim.SetHP(d)
 	case 1:
